@@ -271,6 +271,11 @@ class UndefinedName(str):
         return str(self)
 
 
+def _source_order(name):
+    # type: (Name | UndefinedName) -> loc_t
+    return getattr(name, 'declared_at', name.location)
+
+
 class MultiName(object):
     def __init__(self, names):
         # type: (list[Name | UndefinedName]) -> None
@@ -280,7 +285,8 @@ class MultiName(object):
                 allnames.extend(n.alt_names)
             else:
                 allnames.append(n)
-        self.alt_names = list(set(allnames))
+        # alternatives go in source order, undefined first
+        self.alt_names = sorted(set(allnames), key=_source_order)
         self.name = self.alt_names[0].name
 
     def __repr__(self):  # type: () -> str
